@@ -13,30 +13,37 @@ type c21Case struct {
 	Ch    int `json:"ch"` // 1,2,3 (frequency f) or 4 (NR43 value f) or 5/6 (LFSR sequence, width 15/7)
 	F     int `json:"f"`
 	Steps int `json:"steps"`
+	// Silent: the channel runs at volume 0 with its DAC on (NRx2 = 08; channel 3: output level mute): inaudible,
+	// but the generator must keep stepping at its frequency
+	Silent bool `json:"silent,omitempty"`
 }
 
-func c21Setup(ch, f int) *machine.M {
+func c21Setup(ch, f int, silent ...bool) *machine.M {
 	m := machine.New(machine.ROMOnly(), machine.Opts{})
 	w := m.Map.Write
 	w(0xff26, 0x00)
 	w(0xff26, 0x80)
+	vol, lvl := uint8(0xf0), uint8(0x20)
+	if len(silent) > 0 && silent[0] {
+		vol, lvl = 0x08, 0x00
+	}
 	switch ch {
 	case 1:
 		w(0xff10, 0x00)
-		w(0xff12, 0xf0)
+		w(0xff12, vol)
 		w(0xff13, uint8(f))
 		w(0xff14, 0x80|uint8(f>>8))
 	case 2:
-		w(0xff17, 0xf0)
+		w(0xff17, vol)
 		w(0xff18, uint8(f))
 		w(0xff19, 0x80|uint8(f>>8))
 	case 3:
 		w(0xff1a, 0x80)
-		w(0xff1c, 0x20)
+		w(0xff1c, lvl)
 		w(0xff1d, uint8(f))
 		w(0xff1e, 0x80|uint8(f>>8))
 	default:
-		w(0xff21, 0xf0)
+		w(0xff21, vol)
 		w(0xff22, uint8(f))
 		w(0xff23, 0x80)
 	}
@@ -47,7 +54,7 @@ func c21Check(l *explore.Local, _ struct{}, c c21Case) *explore.Fail {
 	if c.Ch >= 5 {
 		return c21LFSR(l, c)
 	}
-	m := c21Setup(c.Ch, c.F)
+	m := c21Setup(c.Ch, c.F, c.Silent)
 	var period int // clock cycles per waveform step
 	name := ""
 	mod := 8
@@ -325,7 +332,7 @@ func init() {
 			c.R.Rule = "waveform positions are read (hook) after every machine cycle: for channels 1-3 and every enumerated 11-bit frequency f the cumulative number of duty/wave steps after N machine cycles must equal floor((4N+phi)/P) for one phase phi and P = 4(2048-f) (2(2048-f) for channel 3) over 24 steps; for channel 4 and every NR43 value with s <= 13 the LFSR must step every d(r)*2^s clock cycles over 6 steps; when the frequency changes while a channel runs (channel 1 sweep settings; NRx3/NRx4 rewritten without a trigger at 8 offsets within a period) the steps that follow must again be one per 4(2048-f) clock cycles for the new f (current f read through the hook; the period in flight is not judged); at the fastest clock the output bit sequence over 3 periods must have minimal period 32,767 (15-bit) / 127 (7-bit) and be a rotation of the documented LFSR sequence"
 			c.R.Assumptions = []string{"quick: all f with at most 2 bits set or at most 2 bits clear plus neighbours of 0x400 (the thorough tier enumerates all 2,048)", "the phase of each generator after a trigger is a convention (calibrated)"}
 		}
-		explore.Product(c.R, "step-periods", explore.PartOpt{Bound: "24 waveform steps (6 LFSR steps) per configuration", Domain: "channels 1-3 x f; channel 4 x NR43 with s<=13; LFSR sequences"},
+		explore.Product(c.R, "step-periods", explore.PartOpt{Bound: "24 waveform steps (6 LFSR steps) per configuration", Domain: "channels 1-3 x f; channel 4 x NR43 with s<=13; the same at volume 0 with the DAC on (5 frequencies; NR43 with s<=6); LFSR sequences"},
 			func(yield func(c21Case) bool) {
 				for ch := 1; ch <= 3; ch++ {
 					for f := 0; f < 2048; f++ {
@@ -353,6 +360,22 @@ func init() {
 						continue // the slowest clocks (up to 229k machine cycles per step) in the thorough tier
 					}
 					if !yield(c21Case{Ch: 4, F: v, Steps: 6}) {
+						return
+					}
+				}
+				// silent but running: volume 0 with the DAC on
+				for ch := 1; ch <= 3; ch++ {
+					for _, f := range []int{0x000, 0x400, 0x6ff, 0x7c0, 0x7ff} {
+						if !yield(c21Case{Ch: ch, F: f, Steps: 24, Silent: true}) {
+							return
+						}
+					}
+				}
+				for v := 0; v < 256; v++ {
+					if v>>4 > 6 {
+						continue
+					}
+					if !yield(c21Case{Ch: 4, F: v, Steps: 6, Silent: true}) {
 						return
 					}
 				}
